@@ -76,7 +76,10 @@ RULE = (
     "state ignore / warn / raise, warnings as errors, and changed print options: same result as under the default, "
     "and the call leaves error state, print options and warning filters as it found them; 'ties' = compress() with "
     "tolerances 0, 1e-12, 0.2, 0.5, 1, 10 on arrays whose rounding error equals the tolerance exactly, all-equal, "
-    "all-zero, zero + value. A case counts as non-trivial when the array is "
+    "all-zero, zero + value; 'levels' = compress(x, float_tolerance) for tolerances 1e-9, 1e-6, 1e-3, 1e-1 applied at "
+    "data / column / category / block / file level x 6 arrays (9-digit floats, float32, a 40-row ramp, ints) x {plain, "
+    "already compressed operand}: every contained column gets the encodings and decoded values that compress() of "
+    "the column alone gives with that tolerance, within the requested tolerance. A case counts as non-trivial when the array is "
     "non-empty and the oracle either compared a decoded non-empty array element-wise with the original or "
     "observed the refusal of a value that the model says the representation cannot hold."
 )
@@ -3689,6 +3692,90 @@ def audit3_replay(case, ctx):
 
 
 # ---------------------------------------------------------------------------
+# an option crossed with the nesting level at which compress() is applied
+# ---------------------------------------------------------------------------
+LEVEL_TOLS = [1e-9, 1e-6, 1e-3, 1e-1]
+LEVEL_ARRAYS = {
+    "nine_digits": ("float64", [1.23456789, 123.456789, 0.000123456789, 98765.4321]),   # default 1e-6 loses digits
+    "three_digits": ("float64", [1.5, 0.25, 1234.5, -3.0]),
+    "percent": ("float64", [1.234, 5.678, 9.1011, 12.1314, 15.1617]),                   # 1e-1 / 1e-3 may use fewer bytes
+    "float32": ("float32", [1.2345678, 2.5, 1000.125, 0.333333]),
+    "long_ramp": ("float64", [0.123456789 * (i + 1) for i in range(40)]),
+    "ints": ("int32", [3, -1, 70000, 3]),
+}
+
+
+def levels_case(ctx, key, tol, level, twice):
+    """compress(x, float_tolerance=tol) applied at data / column / category / block / file level must treat every
+    contained column exactly as compress(column_data, float_tolerance=tol) does (same encodings, same decoded
+    values), and the statement's law holds against the REQUESTED tolerance."""
+    case = {"k": "levels", "a": key, "tol": tol, "level": level, "twice": twice}
+    if not ctx.journal(case):
+        return
+    env = _enc()
+    pdbx = env["pdbx"]
+    dtype, vals = LEVEL_ARRAYS[key]
+    arr = np.array(vals, dtype=dtype)
+    other = np.array([x * 1.000000123 for x in LEVEL_ARRAYS["nine_digits"][1]])
+
+    def build_():
+        d = pdbx.BinaryCIFData(arr.copy())
+        col = pdbx.BinaryCIFColumn(d, pdbx.BinaryCIFData(np.array([i % 3 for i in range(len(arr))], dtype=np.uint8)))
+        cat = pdbx.BinaryCIFCategory({"x": col, "n": np.arange(len(arr), dtype=np.int32)})
+        blk = pdbx.BinaryCIFBlock({"c": cat, "c2": pdbx.BinaryCIFCategory({"o": other.copy()})})
+        return pdbx.BinaryCIFFile({"b": blk})
+
+    def trip(d):
+        packed = env["msgpack"].packb(d.serialize(), use_bin_type=True, default=env["encode_numpy"])
+        back = pdbx.BinaryCIFData.deserialize(env["msgpack"].unpackb(packed, use_list=True, raw=False))
+        return back.array, [type(e).__name__ for e in d.encoding], [getattr(e, "factor", None) for e in d.encoding]
+
+    bad = None
+    try:
+        f = build_()
+        if twice:
+            f = pdbx.compress(f)  # operand that has been compressed before (default tolerance)
+        ref_x = trip(pdbx.compress(pdbx.BinaryCIFData(arr.copy()), float_tolerance=tol))
+        ref_o = trip(pdbx.compress(pdbx.BinaryCIFData(other.copy()), float_tolerance=tol))
+        op = {"file": f, "block": f["b"], "category": f["b"]["c"], "column": f["b"]["c"]["x"],
+              "data": f["b"]["c"]["x"].data}[level]
+        res = pdbx.compress(op, float_tolerance=tol)
+        got_x = {"file": lambda r: r["b"]["c"]["x"].data, "block": lambda r: r["c"]["x"].data,
+                 "category": lambda r: r["x"].data, "column": lambda r: r.data, "data": lambda r: r}[level](res)
+        gx = trip(got_x)
+        pairs = [("x", ref_x, gx, arr)]
+        if level in ("file", "block"):
+            go = trip(res["b"]["c2"]["o"].data if level == "file" else res["c2"]["o"].data)
+            pairs.append(("o", ref_o, go, other))
+        for name, ref, got, src in pairs:
+            if not same_array(ref[0], got[0]) or ref[1] != got[1] or ref[2] != got[2]:
+                bad = "differs_from_compress_of_the_column_alone"
+                obs = {"column": name, "alone": [ref[1], ref[2], repr(ref[0][:3])], "nested": [got[1], got[2], repr(got[0][:3])]}
+                break
+            if not exact_or_tol(src, got[0], tol):
+                bad = "outside_requested_tolerance"
+                obs = {"column": name, "decoded": repr(got[0][:4])}
+                break
+    except Exception as ex:  # noqa: BLE001
+        bad, obs = "raised_%s" % type(ex).__name__, str(ex)[:120]
+    if bad:
+        tcls = "default_tolerance" if tol == 1e-6 else ("stricter_than_default" if tol < 1e-6 else "looser_than_default")
+        ctx.violation("levels:compress|%s|%s,%s" % (bad, level, tcls),
+                      "float_tolerance is not applied at this nesting level as it is to the column alone", case, observed=obs)
+    ctx.count("accepted")
+    ctx.ev(1, 1)
+    ctx.outcome(("lvl", key, tol, level, twice, bad))
+
+
+def run_levels_shard(shard, ctx):
+    for key in LEVEL_ARRAYS:
+        for tol in LEVEL_TOLS:
+            for level in IDENTITY_LEVELS:
+                for twice in (False, True):
+                    levels_case(ctx, key, tol, level, twice)
+
+
+# ---------------------------------------------------------------------------
 # contract
 # ---------------------------------------------------------------------------
 def bounds(tier):
@@ -3778,6 +3865,7 @@ def shards(tier, seed):
     out.append({"s": "operands"})
     out.append({"s": "ambient"})
     out.append({"s": "ties"})
+    out.append({"s": "levels"})
     for kind in ("int", "float", "str"):
         out.append({"s": "derived", "kind": kind})
     # the seed rotates the processing order inside the leading (integer) block only
@@ -3830,6 +3918,8 @@ def _run_shard(shard, ctx):
         run_ambient_shard(shard, ctx)
     elif s == "ties":
         run_ties_shard(shard, ctx)
+    elif s == "levels":
+        run_levels_shard(shard, ctx)
     elif s == "values":
         run_values_shard(shard, ctx)
     elif s == "derived":
@@ -3867,6 +3957,8 @@ def replay(case, ctx):
         audit2_replay(case, ctx)
     elif k in ("operands", "ambient", "ties"):
         audit3_replay(case, ctx)
+    elif k == "levels":
+        levels_case(ctx, case["a"], case["tol"], case["level"], case["twice"])
     else:
         raise ValueError(case)
 
